@@ -17,6 +17,9 @@ Semantics of the subset (the translator's conventions):
     expression that is visibly non-negative (`max(e, n)` with `n` natural), a `range` end may be negative (`pyRange`);
     fixed-width NumPy integer types are NOT modelled: no overflow (see `Lemmas/SrcLibNp.lean`), dtype conversions
     (`astype`, `dtype=`, `int(...)` of an integer) are the identity and are recorded as written in `srcConversions_<f>`;
+  * an in-place update (`l[k] = e`, `l[k] -= e`, `l.append(e)`) gives the ONE name `l` a new value; it is accepted only for a list
+    created in the function (`list(…)`, a list display, `np.zeros`) that no other name refers to: a parameter, an alias `a = b` or a
+    NumPy view would make that reading unsound and is outside the subset;
   * `None` is `Option.none`; `x is not None` in a `while`/`if` test refines `x` to its value in the body (`match … with
     | some x_1 => …`);
   * nested `def`s are closure-converted: the enclosing function's variables they read become leading parameters, passed at
@@ -290,6 +293,7 @@ class Tr:
         self.nested = {} if parent is None else parent.nested       # nested function name -> FunctionDef
         self.loops = 0
         self.conversions = unit.conversions
+        self.owned = set()                   # python names bound to a list that this scope created (no other name refers to it)
 
     # --- names
     def fresh(self, py):
@@ -797,6 +801,27 @@ class Tr:
         text = " ".join([name] + [paren(a, 100) for a in cvs + args])
         return self.bind_value(text, spec["ret"])
 
+    # --- in-place mutation is translated as a new value of ONE name: sound only if no other name refers to the same list
+    def is_fresh(self, node):
+        """does the expression create a new list / array (so that the name it is assigned to is its only owner)"""
+        if isinstance(node, ast.List):
+            return True
+        return isinstance(node, ast.Call) and dotted(node.func) in ("list", "np.zeros")
+
+    def note_binding(self, py, value_node):
+        if isinstance(value_node, ast.Name):               # `a = b`: two names for one object
+            self.owned.discard(value_node.id)
+            self.owned.discard(py)
+        elif value_node is not None and self.is_fresh(value_node):
+            self.owned.add(py)
+        else:
+            self.owned.discard(py)
+
+    def check_mutable(self, py, what):
+        if py not in self.owned:
+            raise Shape("%s of `%s`, which is not a list created in this function (a parameter, an alias or a view): the "
+                        "translation of in-place updates as new values would not be sound" % (what, py))
+
     # --- statements
     def let(self, py, v, k):
         if v.vec is not None:
@@ -865,6 +890,7 @@ class Tr:
             if isinstance(c.func, ast.Attribute) and c.func.attr == "append" and isinstance(c.func.value, ast.Name) \
                     and len(c.args) == 1 and not c.keywords:
                 py = c.func.value.id
+                self.check_mutable(py, "append")
 
                 def val():
                     l, x = self.expr(c.func.value), self.expr(c.args[0])
@@ -888,9 +914,14 @@ class Tr:
             g = self.gen_next(value)
             if g is not None:                                     # x = next(generator variable) outside try: StopIteration propagates
                 return self.gen_next_stmt(tgt.id, g, None, rest, end)
-            return self.under(lambda: self.typed(tgt.id, self.expr(value)), lambda v: self.let(tgt.id, v, k))
+            def bound(v):
+                self.note_binding(tgt.id, value)
+                return self.let(tgt.id, v, k)
+            return self.under(lambda: self.typed(tgt.id, self.expr(value)), bound)
         if isinstance(tgt, (ast.Tuple, ast.List)) and all(isinstance(e, ast.Name) for e in tgt.elts):
             names = [e.id for e in tgt.elts]
+            for n in names:
+                self.owned.discard(n)
 
             def then(v):
                 if v.comps is None and (v.ty is None or v.ty.k != "T"):
@@ -916,6 +947,7 @@ class Tr:
                 if tmatch(tpl, tgt, b):
                     return self.under(lambda: handler(self, b, value), lambda v: self.let(tgt.value.id, v, k))
             py = tgt.value.id
+            self.check_mutable(py, "an item assignment")
             sl = self.lookup(tgt.slice.id) if isinstance(tgt.slice, ast.Name) else None
             if sl is not None and sl.ty == T(L(N), L(Z)):            # M[(rows, cols)] = vals
                 def scat():
@@ -1074,6 +1106,7 @@ class Tr:
         for py in carried:
             v = self.lookup(py)
             t.env[py] = V(t.fresh(py), v.ty, nonneg=v.ty == N)
+        t.owned = {py for py in carried if py in self.owned}
         return t
 
     def drawn_in(self, stmts):
@@ -1192,6 +1225,8 @@ class Tr:
             it = self.materialise(it)
         if it.ty is None or it.ty.k != "L":
             raise Shape("for over something that is not a list")
+        if names_in(s.iter) & set(assigned_names(s.body)):
+            raise Shape("the list a `for` loop iterates over is changed in its body")
         carried = self.unit.order([n for n in assigned_names(s.body) if self.lookup(n) is not None and n != s.target.id])
         name = self.loop_name()
         t = self.sub(carried)
@@ -1671,6 +1706,8 @@ HEADER = (
     "    end of a `range` may be negative (`pyRange`).  Fixed-width NumPy integers are NOT modelled (no overflow: the code sizes\n"
     "    them with `determine_optimal_int_type`, tied in Generated/SrcGraph.lean, and converts scalars with `int(...)`): `astype`,\n"
     "    `dtype=`, `int(n)` are the identity and are recorded in `srcConversions_<f>`;\n"
+    "  * an in-place update `l[k] = e`, `l[k] -= e`, `l.append(e)` gives the ONE name `l` a new value; it is accepted only for a list\n"
+    "    created in the function (`list(…)`, a list display, `np.zeros`) to which no other name refers (no parameter, alias or view);\n"
     "  * `None` is `none`; `x is not None` in a `while` test refines `x` to its value in the body;\n"
     "  * nested `def`s are closure-converted: the enclosing function's variables they read are leading parameters, passed with their\n"
     "    current value at every call;\n"
